@@ -193,6 +193,7 @@ CONSTANTS
   Kind = "%(kind)s"
   MaxDepth = %(depth)d
   EmitDepth = %(depth)d
+  NWalks = %(walks)d
   Models <- MCModels
   Cast <- MCCast
   RateCalls <- MCRateCalls
@@ -213,30 +214,25 @@ CHECK_DEADLOCK FALSE
 """
 
 
-def sequences(run, kind, depth, want, simulate=None, seed=1):
-    """Behaviours of the state machine (exhaustive to depth, or simulated), replayed on live objects."""
+def sequences(run, kind, depth, want, walks=0, seed=1):
+    """Behaviours of the state machine - exhaustive to depth, or `walks` random walks of that depth - replayed on live objects."""
     import plans
 
-    cfg = SEQ_CFG % dict(kind=kind, depth=depth)
-    tag = "seq-%s-d%d%s" % (kind, depth, "-sim" if simulate else "")
+    cfg = SEQ_CFG % dict(kind=kind, depth=depth, walks=walks)
+    tag = "seq-%s-d%d%s" % (kind, depth, "-w%d" % walks if walks else "")
+    simulate = bool(walks)
     emit_file = os.path.join(run.wd, "emit-%s.ndjson" % tag)
     if os.path.exists(emit_file):
         os.remove(emit_file)
     t0 = time.time()
-    if simulate:
-        rc, out = tlc.run_tlc("MC_Seq", cfg, run.wd, env={"EMIT_FILE": emit_file}, workers=tlc.NCPU, heap="8g",
-                              simulate="num=%d" % simulate, extra=["-depth", str(depth + 1), "-seed", str(seed)])
-    else:
-        rc, out = tlc.run_tlc("MC_Seq", cfg, run.wd, env={"EMIT_FILE": emit_file}, workers=tlc.NCPU, heap="12g")
+    rc, out = tlc.run_tlc("MC_Seq", cfg, run.wd, env={"EMIT_FILE": emit_file}, workers=tlc.NCPU, heap="12g",
+                          extra=["-seed", str(seed)] if walks else None)
     if rc != 0 or "Error:" in out or "violated" in out:
         log = os.path.join(run.wd, "mc-%s.log" % tag)
         open(log, "w").write(out)
         i = out.find("Error:")
         raise MachineryError("MC_Seq %s failed (rc=%d), log %s\n%s" % (tag, rc, log, out[i:i + 2500] if i >= 0 else out[-2000:]))
     gen, dist = tlc.tlc_stats(out)
-    if simulate:
-        m = re.findall(r"(\d+) states checked", out)
-        gen = dist = int(m[-1]) if m else 0
     hists = []
     seen = set()
     with open(emit_file) as f:
